@@ -7,6 +7,11 @@ HERE = os.path.dirname(os.path.abspath(__file__))
 BASE = json.load(open("/root/.vp/BASELINE.json")) if os.path.exists("/root/.vp/BASELINE.json") else {}
 
 CHECKS = {
+ "C03": dict(
+  text="Lean 4 theorems: `every_position_checked` — over function bodies of any shape and depth (mutual induction on expressions, statements and blocks) every expression position and every statement of every block is handed to the checker, given the role table that the correspondence validates role by role (kernel-checked witness `elif_was_skipped` for the table before the fix); `reassign_immutable_rejected` / `reassign_mutable_accepted` / `fresh_name_accepted` — a plain `x = value` is rejected exactly when the nearest `x` bound in this or any enclosing block of the function is immutable, at any nesting depth (witness `old_checker_missed_nested`); `omitted_variant_reported` / `complete_match_accepted` — a variant no arm names, in a match without catch-all, is reported missing, and a complete match is not. Which diagnostics each rule produces, and that they are located on the edited lines, is decided by editing real programs at every position and running the real checker.",
+  note="Six fix: commits repaired gaps found by this check (elif branches, nested re-assignment, `?` outside Result functions, plain call arguments, match guards; plus the .clone() fix found under C20). Open finding: diagnostics inside compound f-string interpolations are located relative to the interpolation. Trait-adoption rules (declaration level) are not edited here.",
+  technique="Lean 4 proof (mutual structural induction over the traversal; scope-chain lemmas; list reasoning for match coverage) + single-edit correspondence on real programs + rule oracle",
+  ref="C03"),
  "C04": dict(
   text="Lean 4 theorems over all Int64 pairs: both copies of the // and % kernels compute Int.fdiv / Int.fmod (floor, sign of divisor, |r|<|b|, a = q*b + r without wrap), are equal as functions (incl. panicking pairs), zero divisor gives exactly the documented error, no other failure except MIN // -1. Float kernels: executable Lean model tied bit-for-bit to the real f64 kernels; Python itself is the oracle.",
   note="Kernel-checked for the integer kernels; float rounding is outside any theorem (tie + oracle only). Model tied to /repo by differential correspondence on grids + seeded pairs (coverage in evidence).",
